@@ -38,7 +38,8 @@ Inductive case :=
    nwrites = number of w.Write calls; ref = the line rendered with fmt / strconv /
    time.Format in UTC / net.SplitHostPort (None: outside the domain the reference covers).
    A panic of Log and a time field that is not the UTC rendering are plain violations
-   (they were known findings F-C20-1 / F-C20-2 until bb1b4e7 / 1da7601). *)
+   (they were known findings F-C20-1 / F-C20-2 until bb1b4e7 / 1da7601), and so is a host
+   field that keeps the brackets of an IPv6 literal (F-C20-3 until 0f981ad). *)
 | CLog (format : str) (e : event) (impl : outcome str) (nwrites : N) (ref : option str).
 
 Definition atoi_domain (i pad : Z) : bool := int64_ok i && (pad <=? 127)%Z.
@@ -89,8 +90,7 @@ Definition check_case (c : case) : N :=
                        end)
                   | _ => false
                   end in
-      let region := if bracketed s then Some 3 else None in
-      verdict same spec region (is_ok m)
+      verdict same spec None (is_ok m)
   | CLex s typ n =>
       let '(t, k) := lex s in
       let same := (typ_code t =? typ) && (N.of_nat k =? n) in
@@ -113,9 +113,5 @@ Definition check_case (c : case) : N :=
                   | Ok s => one_line s && (nwrites =? 1)
                             && match ref with Some r => beq s r | None => true end
                   end in
-      let region := match new_logger format with
-                    | Ok p => if region_brackets p e then Some 3 else None
-                    | _ => None
-                    end in
-      verdict same spec region (match m with Ok (_ :: _) => true | _ => false end)
+      verdict same spec None (match m with Ok (_ :: _) => true | _ => false end)
   end.
